@@ -66,7 +66,7 @@ def faulty_script(rng, p, kind):
     passes = sc.settle_passes(0, vals)
     ps = {'passes': passes}
     if kind == 'exc':
-        passes[k - 1] = [['set', 1, lib.fhex(9.0)], ['raise', rng.choice([10, 11, 12])]]
+        passes[k - 1] = [['set', 1, lib.fhex(9.0)], ['raise', rng.choice([10, 11, 12, 20, 21, 22])]]
     elif kind == 'hookexc':
         ps['before' if rng.random() < 0.6 else 'after'] = [['raise', 13]]
     elif kind == 'nan':
